@@ -223,10 +223,17 @@ fn insert_known(set: &mut CounterSet, kind: KnownCounterKind, count: u64) {
 fn report(ctx: &mut BenchContext, pool: &ThreadPool) -> RunReport {
     let did_run = ctx.did_run;
     let thread_count = ctx.thread_count.get();
-    let stats = std::panic::catch_unwind(std::panic::AssertUnwindSafe(|| {
-        StatsMirror::of(&ctx.compute_stats())
-    }))
-    .map_err(panic_text);
+    // Divan computes statistics only after a benchmark-mode run.
+    let stats = if ctx.shared_action_is_bench() {
+        ::divan_verif_rt::log::quietly(|| {
+            std::panic::catch_unwind(std::panic::AssertUnwindSafe(|| {
+                StatsMirror::of(&ctx.compute_stats())
+            }))
+        })
+        .map_err(panic_text)
+    } else {
+        Err("statistics are not computed in test mode".to_owned())
+    };
 
     let (samples, counters) = ctx.verif_parts();
     let durations: Vec<u128> =
@@ -338,9 +345,11 @@ pub fn stats_of(
             }
         }
     }
-    std::panic::catch_unwind(std::panic::AssertUnwindSafe(|| {
-        StatsMirror::of(&ctx.compute_stats())
-    }))
+    ::divan_verif_rt::log::quietly(|| {
+        std::panic::catch_unwind(std::panic::AssertUnwindSafe(|| {
+            StatsMirror::of(&ctx.compute_stats())
+        }))
+    })
     .map_err(panic_text)
 }
 
